@@ -70,7 +70,9 @@ CRITERIA = {
     # c = 1 only in the pool: the second derivative is wrong for c != 1 (known finding, see Drucker1949_probe)
     "Drucker1949": (False, False, ['"Drucker 1949" {c : 1}']),
     "Drucker1949_probe": (False, False, ['"Drucker 1949" {c : 1.285}']),
-    "Cazacu2001": (True, False, ['"Cazacu 2001" {a : %s, b : %s, c : 1.285}' % (_CAZ_A, _CAZ_B)]),
+    # same second derivative formula as Drucker 1949 (wrong for c != 1): c = 1 in the pool
+    "Cazacu2001": (True, False, ['"Cazacu 2001" {a : %s, b : %s, c : 1}' % (_CAZ_A, _CAZ_B)]),
+    "Cazacu2001_probe": (True, False, ['"Cazacu 2001" {a : %s, b : %s, c : 1.285}' % (_CAZ_A, _CAZ_B)]),
     "IsoCazacu2004": (False, False, ['"Isotropic Cazacu 2004" {c : -1.056}', '"Isotropic Cazacu 2004" {c : 0.8}']),
     "OrthoCazacu2004": (True, False, ['"Orthotropic Cazacu 2004" {a : %s, b : %s, c : 1.285}' % (_CAZ_A, _CAZ_B),
                                       '"Orthotropic Cazacu 2004" {a : %s, b : %s, c : -0.9}' % (_CAZ_A, _CAZ_B)]),
@@ -133,7 +135,19 @@ KIN_CHOICES = {
     "Chaboche2012_Phi": ["Chaboche2012_Phi"],
 }
 # values only used by the probes of the known findings, never drawn for the pool
-NOT_IN_POOL = {"crit:Drucker1949_probe", "kin:Chaboche2012_Phi", "nuc:CN_strain", "palgo:staggered"}
+NOT_IN_POOL = {"crit:Drucker1949_probe", "crit:Cazacu2001_probe", "kin:Chaboche2012_Phi", "nuc:CN_strain", "nuc:CN_stress",
+               "nuc:PL_stress", "palgo:staggered"}
+# components whose emitted derivative is only right for theta = 1 (known findings C43.jacobian.theta.*): the pool drives
+# them with theta = 1, the probes with theta = 0.5
+THETA1_ISO = ("Power", "UserDefined", "SRS_CowperSymonds", "SRS_JohnsonCook")
+THETA1_FLOW = ("UserDefinedVP",)
+
+
+def needs_theta1(cfg):
+    for fl in cfg.get("flows", []):
+        if fl["flow"] in THETA1_FLOW or any(r in THETA1_ISO for r in ISO_CHOICES[fl["iso"]]):
+            return True
+    return False
 
 # ------------------------------------------------------------------ flows
 FLOWS = {
@@ -151,7 +165,8 @@ FLOW_NAME = {"Plastic": "Plastic", "Norton": "Norton", "HyperbolicSine": "Hyperb
 # ------------------------------------------------------------------ nucleation models
 NUCLEATION = {
     "CN_strain": ['"Chu-Needleman 1980 (strain)" {fn : 0.04, en : 3e-3, sn : 1.5e-3}'],
-    "CN_stress": ['"Chu-Needleman 1980 (stress)" {fn : 0.04, sigm : 200e6, sn : 60e6, fmax : 0.1}'],
+    # fn has the unit of a stress here (df = An(sigma_I) dp with An = fn/(sn sqrt(2 pi)) exp(..))
+    "CN_stress": ['"Chu-Needleman 1980 (stress)" {fn : 3e8, sigm : 200e6, sn : 60e6, fmax : 0.1}'],
     "PL_strain": ['"PowerLaw (strain)" {fn : 0.5, en : 1e-3, m : 2, fmax : 0.1}'],
     "PL_stress": ['"PowerLaw (stress)" {fn : 0.2, sn : 100e6, m : 2, fmax : 0.1, pmin : 0}'],
 }
@@ -190,6 +205,10 @@ def valid(cfg):
         return False
     if is_porous(cfg) and any(KIN_CHOICES[fl["kin"]] for fl in cfg["flows"]):
         return False  # "kinematic hardening rules are not supported when coupled with a porosity evolution" (mfront error)
+    if sum(KIN_CHOICES[fl["kin"]].count("DRS") for fl in cfg["flows"]) > 1:
+        return False  # entry name 'InelasticStrainRateLinearTransformationCoefficients' declared twice (mfront error)
+    if is_porous(cfg) and any(fl["flow"] == "UserDefinedVP" for fl in cfg["flows"]):
+        return False  # emitted code does not compile (dn_df, trace_n undeclared); reported separately
     if len(cfg["flows"]) > 1:
         # Several flows: mfront 5.2-dev generates code that does not compile (identifiers without the flow id) for
         # StrainRateSensitive / UserDefined hardening rules, UserDefinedViscoplasticity flows and porous criteria.
